@@ -183,6 +183,13 @@ pub fn generate(prop: &str, rng: &mut Rng, plan: &mut Plan, _index: u64) {
         plan.knobs.faults.eintr = Some((1 + rng.below(12) as u32, 1 + rng.below(3) as u32, *rng.pick(&[1u8, 4, 7, 7])));
         plan.knobs.batch = "faulty".into();
     }
+    if prop != "C14" && rng.chance(1, 8) {
+        // somebody else in the process reaps children: a command's status may then be unknown,
+        // but nothing may hang, be lost or be left behind
+        plan.knobs.faults.foreign_reap = true;
+        plan.knobs.env_reaps = 1 + rng.below(2) as u32;
+        plan.knobs.batch = "faulty".into();
+    }
     if rng.chance(1, 8) {
         // a parent with closed standard descriptors (only those no stage inherits)
         let mut mask = 0u8;
@@ -632,7 +639,11 @@ pub fn run(plan: &Plan, pp: &PipePlan) -> FamOut {
     }
     // status of the last command, after all have exited
     if let Some(st) = status {
-        if !status_matches(st, pp.stages[n - 1].code) {
+        let reaped_by_others = st == ExitStatus::Undetermined && sim().k.fcount.fired.get("foreign_reap").copied().unwrap_or(0) > 0;
+        if reaped_by_others {
+            sim().k.probe("status_undetermined_after_foreign_reap");
+        }
+        if !status_matches(st, pp.stages[n - 1].code) && !reaped_by_others {
             violate("status_not_last", format!("status_not_last/got={:?}", st), format!("returned {:?}, the last command exits with {}", st, pp.stages[n - 1].code));
         }
     }
